@@ -107,34 +107,38 @@ func genCases(seed int64, tier string) []core.Case {
 		cseed := rng.Int63()
 		for si, sc := range scenarios2 {
 			for _, drv := range drivers {
-				bound, k, limit := 2, 3, 120
+				// small trees are enumerated completely in both tiers; the at-the-limit scenarios (in
+				// which both ops proceed on the unchanged tree, so the tree has millions of leaves)
+				// are preemption-bounded
+				bound, k, limit, n := -1, 2, 600, 12
+				if sc.Big {
+					bound, k, limit = 2, 3, 300
+				}
 				if thorough {
-					bound, k, limit = -1, 5, 4000
+					bound, k, limit, n = -1, 4, 5000, 100
+					if sc.Big {
+						bound, k, limit = 3, 5, 4000
+					}
 				}
 				for wi, w := range words(2, k) {
 					add(&plain, "", caseData{Kind: "dfs", Scen: sc, Driver: drv, CSeed: cseed, Prefix: w, Bound: bound, Limit: limit},
 						fmt.Sprintf("dfs2-f%d-s%d-%s-p%d", f, si, drv, wi))
 				}
-				n := 12
-				if thorough {
-					n = 150
-				}
 				add(&plain, "", caseData{Kind: "rand", Scen: sc, Driver: drv, CSeed: cseed, RSeed: rng.Int63(), N: n}, fmt.Sprintf("rand2-f%d-s%d-%s", f, si, drv))
 			}
 		}
+		if f >= 2 {
+			continue
+		}
 		for si, sc := range scenarios3 {
 			for _, drv := range drivers {
-				bound, k, limit := 1, 2, 60
+				bound, k, limit, n := 1, 2, 300, 15
 				if thorough {
-					bound, k, limit = 2, 3, 1500
+					bound, k, limit, n = 2, 3, 3000, 170
 				}
 				for wi, w := range words(3, k) {
 					add(&plain, "", caseData{Kind: "dfs", Scen: sc, Driver: drv, CSeed: cseed, Prefix: w, Bound: bound, Limit: limit},
 						fmt.Sprintf("dfs3-f%d-s%d-%s-p%d", f, si, drv, wi))
-				}
-				n := 15
-				if thorough {
-					n = 170
 				}
 				add(&plain, "", caseData{Kind: "rand", Scen: sc, Driver: drv, CSeed: cseed, RSeed: rng.Int63(), N: n}, fmt.Sprintf("rand3-f%d-s%d-%s", f, si, drv))
 			}
@@ -219,7 +223,7 @@ func runSchedules(res *core.Result, d caseData, verbose bool) {
 			ops = append(ops, opRun{agent: agentOf(i), op: op, err: x.results[i].Err})
 		}
 		nv := len(res.Violations)
-		j := judge(res, x.w, ops, d.Scen.Name, d.Driver, word)
+		j := judge(res, x.w, ops, d.Scen.Name, d.Driver, word, len(x.before) == 0)
 		for _, c := range j.outcomes {
 			res.Stat("op_outcome_"+c, 1)
 		}
